@@ -19,6 +19,8 @@ import (
 	vetypes "github.com/skip-mev/connect/v2/abci/ve/types"
 	connecttypes "github.com/skip-mev/connect/v2/pkg/types"
 
+	"cosmossdk.io/math"
+	banktypes "github.com/cosmos/cosmos-sdk/x/bank/types"
 	opchildtypes "github.com/initia-labs/OPinit/x/opchild/types"
 
 	"opsim/core"
@@ -74,6 +76,7 @@ type c15World struct {
 	oldRound []int32
 	lastTS  int64
 	updatesOK int
+	pendingMembers []*l1Val
 }
 
 func newC15(r *core.Run) *c15World {
@@ -152,19 +155,24 @@ func (c *c15World) genRefresh() (node.HostSetUpdate, string) {
 		client = ""
 		tag = "empty-client"
 	}
-	// model: replaced only by a higher-height set from the configured client
+	c.pendingMembers = members
+	return node.HostSetUpdate{ClientID: client, Height: h, Set: vs}, fmt.Sprintf("refresh %s client=%q height=%d validators=%d", tag, client, h, n)
+}
+
+// commitRefresh applies the model rule for a refresh that was part of a committed execution: the recorded set
+// is replaced only by a higher-height set from the configured client.
+func (c *c15World) commitRefresh(up node.HostSetUpdate) {
 	cfgClient := ""
 	if c.w.m.Bridge != nil {
 		cfgClient = c.w.m.Bridge.L1ClientId
 	}
-	if client != "" && client == cfgClient && h > c.setH {
+	if up.ClientID != "" && up.ClientID == cfgClient && up.Height > c.setH {
 		c.set = map[string]*l1Val{}
-		for _, m := range members {
+		for _, m := range c.pendingMembers {
 			c.set[string(m.Addr)] = m
 		}
-		c.setH = h
+		c.setH = up.Height
 	}
-	return node.HostSetUpdate{ClientID: client, Height: h, Set: vs}, fmt.Sprintf("refresh %s client=%q height=%d validators=%d", tag, client, h, n)
 }
 
 func (c *c15World) pairID(p string) uint64 {
@@ -201,6 +209,25 @@ func (c *c15World) genUpdate() (*opchildtypes.MsgUpdateOracle, []c15Vote, uint64
 	ts := c.lastTS
 	if !honest && r.Chance(1, 6) {
 		ts -= int64(time.Duration(1+r.Intn(3600)) * time.Second) // stale timestamp (replay / rollback)
+	}
+	if !honest && r.Chance(1, 6) {
+		// just above the oldest stored timestamp: newer than some pairs, older than others
+		var oldest, newest int64
+		for _, ps := range c.readPrices(w.n.QueryCtx()) {
+			if !ps.Has {
+				continue
+			}
+			if t := ps.TS.UnixNano(); oldest == 0 || t < oldest {
+				oldest = t
+			}
+			if t := ps.TS.UnixNano(); t > newest {
+				newest = t
+			}
+		}
+		if oldest != 0 && newest > oldest {
+			ts = oldest + 1 + int64(r.Uint64n(uint64(newest-oldest)))
+			r.Fault("byzantine.timestamp-between-pairs")
+		}
 	}
 	base := map[string]*big.Int{"BTC/USD": big.NewInt(int64(60000 + r.Intn(1000))), "ETH/USD": big.NewInt(int64(3000 + r.Intn(100))), "ATOM/USD": big.NewInt(int64(5 + r.Intn(5)))}
 	// deterministic member order
@@ -435,10 +462,35 @@ func runC15(r *core.Run) *core.Violation {
 		switch r.Weighted([]int{3, 10, 2}) {
 		case 0:
 			up, desc := c.genRefresh()
-			r.Step("host.refresh", "%s", desc)
-			w.pendingHost = []node.HostSetUpdate{up}
-			if v := c.block(nil, "", ""); v != nil {
-				return v
+			switch r.Weighted([]int{4, 3, 3}) {
+			case 0:
+				// block-level input (the update reaches opchild outside any transaction)
+				r.Step("host.refresh", "%s (block-level)", desc)
+				w.pendingHost = []node.HostSetUpdate{up}
+				c.commitRefresh(up)
+				if v := c.block(nil, "", ""); v != nil {
+					return v
+				}
+			case 1:
+				// inside a committed transaction
+				r.Step("host.refresh", "%s (inside a committed tx)", desc)
+				c.commitRefresh(up)
+				from := w.pickUser()
+				carrier := &banktypes.MsgSend{FromAddress: from, ToAddress: from, Amount: sdk.NewCoins(sdk.NewCoin("umin", math.NewInt(1)))}
+				if v := c.blockMemo(carrier, "send", "client update carrier", node.HostMemo(up)); v != nil {
+					return v
+				}
+			default:
+				// inside an execution that is thrown away (gas simulation / rejected CheckTx): must leave no trace
+				r.Step("host.refresh", "%s (inside a DISCARDED simulation)", desc)
+				r.Fault("discarded-execution.client-update")
+				from := w.pickUser()
+				carrier := &banktypes.MsgSend{FromAddress: from, ToAddress: from, Amount: sdk.NewCoins(sdk.NewCoin("umin", math.NewInt(1)))}
+				bz, err := node.BuildTx(w.enc, []sdk.Msg{carrier}, node.TxOpts{Memo: node.HostMemo(up)})
+				if err != nil {
+					panic(err)
+				}
+				_, _, _ = w.n.App.Simulate(bz)
 			}
 			if v := c.checkHostSet(); v != nil {
 				return v
@@ -464,6 +516,10 @@ func runC15(r *core.Run) *core.Violation {
 }
 
 func (c *c15World) block(msg sdk.Msg, kind, desc string) *core.Violation {
+	return c.blockMemo(msg, kind, desc, "")
+}
+
+func (c *c15World) blockMemo(msg sdk.Msg, kind, desc, memo string) *core.Violation {
 	w := c.w
 	T := w.now.Add(time.Duration(1+c.r.Intn(5)) * time.Second)
 	bc := blockCtx{Height: w.n.Height() + 1, Time: T}
@@ -479,13 +535,17 @@ func (c *c15World) block(msg sdk.Msg, kind, desc string) *core.Violation {
 	}
 	var txs []l2Pending
 	if msg != nil {
-		bz, err := node.BuildTx(w.enc, []sdk.Msg{msg}, node.TxOpts{})
+		bz, err := node.BuildTx(w.enc, []sdk.Msg{msg}, node.TxOpts{Memo: memo})
 		if err != nil {
 			panic(err)
 		}
 		txs = append(txs, l2Pending{Msgs: []sdk.Msg{msg}, Bytes: bz, Kind: kind, Desc: desc})
 	}
-	return w.execBlock(bc, txs, "")
+	crash := ""
+	if c.r.Chance(1, 10) {
+		crash = []string{"before-finalize", "after-finalize-before-commit", "after-commit", "aborted-optimistic-execution"}[c.r.Intn(4)]
+	}
+	return w.execBlock(bc, txs, crash)
 }
 
 // judge is the independent recount.
